@@ -370,6 +370,11 @@ func main() {
 	rand.Seed(int64(*seed)) // PD's own uses of math/rand (RandomPick, Rand*Region); Go map order stays free: the models are set-valued
 
 	R := res.New("C10", *seed, *tier)
+	// the temporary-setting history needs real seconds (an etcd lease has to run out): it runs beside the generated cases
+	ttlDone := make(chan ttlOutcome, 1)
+	if *replay == "" {
+		go func() { ttlDone <- runTTLHistory(*seed) }()
+	}
 	R.Rule = "generated clusters (3-9 stores with every state the filters read, 2-level labels incl. case variants and empty values, " +
 		"special-use/engine labels, reject-leader property), max-replicas 1-5, location labels / isolation level, a region with learners, down and " +
 		"pending peers, optionally 1-3 placement rules with constraints; a malformed stream (no leader, foreign leader, joint-state roles, peers or down " +
@@ -468,6 +473,14 @@ func main() {
 	if *replay == "" {
 		runReelections(R, *seed, 8)
 		runLifecycles(R, *seed, 24)
+		t := <-ttlDone
+		for _, c := range t.counts {
+			R.Count(c)
+		}
+		R.Notes = append(R.Notes, t.notes...)
+		for _, v := range t.viol {
+			R.Violate(v.Sig, v.Desc, v.Replay)
+		}
 	}
 	if err := cf.Flush(); err != nil {
 		panic(err)
